@@ -22,10 +22,11 @@ J == INSTANCE JoinProc WITH CMACf <- SymCMAC, AESf <- SymAES, AESDf <- SymAESD, 
 Txn == {1, 2}
 Kinds == {"join", "rejoin1"}
 Faults == {"none", "devkeys", "kek"}          \* a storage callback of the server fails (device keys / KEK or AS-KEK label lookups)
-Scen == [kind : Kinds, optneg : BOOLEAN, micok : BOOLEAN, known : BOOLEAN, wrapped : BOOLEAN, fault : Faults]
+\* badparams: the request asks for an RxDelay (or carries a CFList) that the join-accept cannot carry
+Scen == [kind : Kinds, optneg : BOOLEAN, micok : BOOLEAN, known : BOOLEAN, wrapped : BOOLEAN, fault : Faults, badparams : BOOLEAN]
 \* request of transaction t under scenario s (all identifiers depend on t: no accidental sharing)
 Req(t, s) == [kind |-> s.kind, nwkkey |-> <<"NwkKey", t>>, appkey |-> <<"AppKey", t>>, deveui |-> <<t, 1>>, joineui |-> <<t, 2>>, netid |-> <<t, 3>>,
-              devnonce |-> 256 * t + 7, jn3 |-> <<t, 9, 9>>, devaddr |-> <<t, 4>>, dl |-> <<s.optneg, t>>, rxdelay |-> t, cflist |-> <<>>,
+              devnonce |-> 256 * t + 7, jn3 |-> <<t, 9, 9>>, devaddr |-> <<t, 4>>, dl |-> <<s.optneg, t>>, rxdelay |-> (IF s.badparams THEN 16 + t ELSE t), cflist |-> <<>>,
               txid |-> 100 + t, sender |-> <<"ns", t>>, receiver |-> <<"js", t>>]
 Effective(s) == IF s.kind = "join" THEN s.optneg ELSE TRUE            \* rejoin is a 1.1 procedure
 
@@ -57,9 +58,11 @@ Keys(t) == /\ stage[t] = 3 /\ stage' = [stage EXCEPT ![t] = 4]
            /\ ctx' = [ctx EXCEPT ![t] = [req |-> ctx[t].req, jn |-> ctx[t].jn, keys |-> J!DeviceKeys(ctx[t].req, Effective(scen[t]))]]
            /\ UNCHANGED <<scen, ans>>
 Wrap(t, k, who) == IF scen[t].wrapped THEN <<"wrap", <<"kek", who, t>>, k>> ELSE k
+\* the join-accept is built last: a parameter it cannot carry is refused here (after the MIC decided), never altered
 Answer(t) ==
   /\ stage[t] = 4
-  /\ LET r == ctx[t].req
+  /\ IF ctx[t].req.rxdelay > 15 THEN Finish(t, "Other", None) ELSE
+     LET r == ctx[t].req
          on == Effective(scen[t])
          payload == <<ctx[t].jn, r.netid, r.devaddr, <<on, t>>, r.rxdelay>>
          mic == J!ExpectedMic(r, 32, payload, on)
@@ -73,7 +76,7 @@ Next == \E t \in Txn : Lookup(t) \/ Context(t) \/ Mic(t) \/ Nonce(t) \/ Keys(t) 
 Done(t) == stage[t] = 5
 Unwrapped(t, k) == IF scen[t].wrapped THEN k[3] ELSE k
 ResultCode == \A t \in Txn : Done(t) =>
-   ans[t].code = (IF scen[t].fault = "devkeys" THEN "Other" ELSE IF ~scen[t].known THEN "UnknownDevEUI" ELSE IF scen[t].fault = "kek" THEN "Other" ELSE IF scen[t].kind = "join" /\ ~scen[t].micok THEN "MICFailed" ELSE "Success")
+   ans[t].code = (IF scen[t].fault = "devkeys" THEN "Other" ELSE IF ~scen[t].known THEN "UnknownDevEUI" ELSE IF scen[t].fault = "kek" THEN "Other" ELSE IF scen[t].kind = "join" /\ ~scen[t].micok THEN "MICFailed" ELSE IF scen[t].badparams THEN "Other" ELSE "Success")
 Mirror == \A t \in Txn : Done(t) => ans[t].txid = 100 + t /\ ans[t].sender = <<"js", t>> /\ ans[t].receiver = <<"ns", t>>
 Usable == \A t \in Txn : (Done(t) /\ ans[t].code = "Success") =>
    LET r == Req(t, scen[t])  on == Effective(scen[t])
@@ -83,6 +86,8 @@ Usable == \A t \in Txn : (Done(t) /\ ans[t].code = "Success") =>
 KeysAgree == \A t \in Txn : (Done(t) /\ ans[t].code = "Success") =>
    LET dk == J!DeviceKeys(Req(t, scen[t]), Effective(scen[t])) IN
    DOMAIN ans[t].body.keys = DOMAIN dk /\ \A n \in DOMAIN dk : Unwrapped(t, ans[t].body.keys[n]) = dk[n]
+\* a Success always echoes what was asked for: a request that cannot be echoed never succeeds
+EchoOrRefuse == \A t \in Txn : (Done(t) /\ scen[t].badparams) => ans[t].code # "Success"
 \* key separation: the two derivations never coincide, and the two transactions never share a key
 Separation == (Done(1) /\ Done(2) /\ ans[1].code = "Success" /\ ans[2].code = "Success") =>
    \A n \in DOMAIN ans[1].body.keys, m \in DOMAIN ans[2].body.keys : ans[1].body.keys[n] # ans[2].body.keys[m]
